@@ -172,3 +172,6 @@ def readSpectrum (bytes : List Nat) : Except IoErr (List Nat × List Nat) :=
   | none => .error .invalid
 
 end Sfs
+
+/- Rust functions mirrored in this file beyond those cited above (read by tools/trace_matrix.py):
+   core/src/spectrum/io.rs: detect_npy, detect_plain_text (Format::detect by prefix); core/src/spectrum/io/text.rs: format_spectrum (writeText), parse_scs (readText), new (Header::new); core/src/spectrum/io/write.rs: write_to_stdout, write_to_path, write_to_path_or_stdout (the same bytes to either destination; failing destinations are C18's `io.devfull` cases) -/
